@@ -39,6 +39,10 @@ CHECKS = {
    technique='explicit-state enumeration of (stream, file partition, window, call pattern) against a list-slice reference model on real files; exhaustive value-alphabet round trip',
    text='Every stream of N<=4 (7 thorough) events, every split over 1-3 files including empty files, every (start,max) in 0..N+1 and every has_next/load call pattern is executed on a real event_reader; each answer is compared with the slice model events[start:start+max]. Round trip of ~8k (27k) enumerated events through the CLI record format to 15 digits.',
    note='Trusted: the record layout copied from the driver; loads are only issued after a positive has_next_event.'),
+ 'C10': dict(level='exploration', ref='DESIGN.md §2 C10', engine='c10',
+   technique='exhaustive enumeration of the finite product events x cone setups x entry points x deviate grid with geometric invariants; differential generator-level runs',
+   text='1.4M (quick) / ~6M (thorough) applications of the real operation over the full product of synthetic and generated events, cone axes, apertures, rectangular half-angle pairs, filters, ranks, error flag and all five configuration entry points, with both tails of the two cone deviates; every application is checked for count/species/time/|p| preservation, rigid proper rotation, cone or rectangular-window membership (frame built independently), untouched unselected particles, and the nothing-selected rules; generator-level runs compare the decay sample with and without the operation.',
+   note='Trusted: independent cone-frame construction (Rz(phi)Ry(theta)); tolerances stated in the evidence.'),
 }
 NOT_YET = {
 }
@@ -79,6 +83,7 @@ def main():
             {'name': 'c09', 'path': 'checks/c09.cc', 'serves_properties': ['C09'], 'kind_free_text': 'explicit-state BFS over API histories with a reference state machine'},
             {'name': 'c07', 'path': 'checks/c07.cc', 'serves_properties': ['C07'], 'kind_free_text': 'history enumerator with differential probe shots'},
             {'name': 'c11', 'path': 'checks/c11.cc', 'serves_properties': ['C11'], 'kind_free_text': 'reader window model checker and round-trip enumerator'},
+            {'name': 'c10', 'path': 'checks/c10.cc', 'serves_properties': ['C10'], 'kind_free_text': 'MDL product enumerator with geometric invariants'},
             {'name': 'd0ref', 'path': 'tools/f2cxx.py', 'serves_properties': ['C01', 'C02', 'C06'], 'kind_free_text': 'reference model generated from resources/code/decay0/decay0_2020-04-20.for'},
         ],
         'checks': checks,
